@@ -8,6 +8,9 @@
 (* Only the leecher's half of Upload (lvars) is evolved - by the Obs*      *)
 (* operators that MC_Upload proves to be a sound view of rain's half -     *)
 (* from the recorded events; rain's half stays at its initial value.       *)
+(* The set of pieces the session can hold (have) starts as the pieces      *)
+(* whose stored bytes are ground truth and grows with the events Got of    *)
+(* the scenario family `grow` (the session downloads while it uploads).    *)
 (* A failed obligation does not block the step: the tag goes to `viol`     *)
 (* and is printed ("@@VIOL <line> <tag>"); with the read-path defect of    *)
 (* the unchanged tree hundreds of piece messages fail, so the judge has to *)
@@ -25,7 +28,7 @@ Ev == Trace[l]
 SetOf(q) == {q[i] : i \in 1 .. Len(q)}
 
 CfgOf(e) == [np |-> e.np, plen |-> e.plens, maxblk |-> e.maxblk, maxq |-> e.maxq, cb |-> e.cb,
-             nconn |-> e.nconn, impl |-> "loop"]
+             nconn |-> e.nconn, impl |-> "loop", afsend |-> "all"]
 
 TraceInit ==
     /\ l = 2 /\ viol = ""
@@ -53,6 +56,10 @@ TrChoke   == Ev.op = "Choke" /\ IsConn(Ev.c) /\ lopen[Ev.c] /\ ObsChoke(Ev.c) /\
 TrUnchoke == Ev.op = "Unchoke" /\ IsConn(Ev.c) /\ lopen[Ev.c] /\ ObsUnchoke(Ev.c) /\ Keep /\ Step("")
 TrAF      == Ev.op = "AF" /\ IsConn(Ev.c) /\ lopen[Ev.c] /\ ObsAF(Ev.c, Ev.i) /\ Keep /\ Step("")
 TrReject  == Ev.op = "Reject" /\ IsConn(Ev.c) /\ lopen[Ev.c] /\ ObsReject(Ev.c, Ev.i, Ev.b, Ev.n) /\ Keep /\ Step("")
+\* the session under test also DOWNLOADS (scenario family `grow`): the scripted feeders have handed over the last missing
+\* byte of piece Ev.i - the earliest moment at which rain can have verified it.  From here on a request for it may be
+\* answered with data (C03.notHeld), and a choked peer may get it iff it was granted (C03.choked, Granted).
+TrGot     == Ev.op = "Got" /\ Ev.i \in Piece /\ have' = have \cup {Ev.i} /\ UNCHANGED <<cfg, rvars, lvars, bad>> /\ Step("")
 \* messages without meaning for C03 (have-all / bitfield / extension handshake / keep-alive)
 TrOther   == Ev.op = "Other" /\ UNCHANGED vars /\ Step("")
 
@@ -78,7 +85,7 @@ TrReadAt ==
 TraceNext ==
     /\ l <= Len(Trace)
     /\ \/ TrReset \/ TrOpen \/ TrClosed \/ TrRequest \/ TrCancel \/ TrInterest \/ TrChoke \/ TrUnchoke
-       \/ TrAF \/ TrReject \/ TrOther \/ TrPiece \/ TrCrash \/ TrReadAt
+       \/ TrAF \/ TrReject \/ TrOther \/ TrPiece \/ TrCrash \/ TrReadAt \/ TrGot
 
 TraceSpec == TraceInit /\ [][TraceNext]_tvars
 
